@@ -61,6 +61,18 @@ pub fn exec(
     if !sink.admit() {
         return;
     }
+    // the protocol version of the request is no input of any property: a quarter of all cases
+    // is sent as HTTP/1.0, 0.9, 2 or 3 instead of the default 1.1
+    let alt;
+    let c = if c.version == 0 && hash64(c) % 4 == 0 {
+        let mut a = c.clone();
+        a.version = 1 + ((hash64(c) >> 2) % 4) as u8;
+        sink.count("requests_with_other_http_version");
+        alt = a;
+        &alt
+    } else {
+        c
+    };
     match run_serve(c) {
         None => sink.count("inexpressible_request"),
         Some(obs) => {
@@ -1465,7 +1477,7 @@ impl Prop for C05 {
         "exploration"
     }
     fn rule(&self, _: &Ctx) -> String {
-        "full product: ETag {absent, strong, weak, strong with comma, strong with obs-text bytes} x mtime {absent, whole second, +500ms} x If-Range {absent, identical, same opaque strong/weak, W/ and w/ variants, different strong/weak, unterminated prefix, suffix, shorter, longer, upper-cased, unquoted, trailing space, two-tag list, *, empty, garbage, non-ASCII, dates -1s/equal/+1s/+1d in three syntaxes} x Range {single, first byte, suffix, multi (multipart-eligible), multi small, unsatisfiable, whole} x companion precondition {none, If-Match: *, If-Match: own tag, If-Match list containing it, non-matching If-None-Match, later If-Unmodified-Since, earlier If-Modified-Since} x GET/HEAD x 2 lengths; every If-Range case again with a second, different If-Range field line before or after it (judged when no line alone would allow the range). Non-trivial = distinct case carrying Range whose status/Content-Range was compared with the If-Range rule".into()
+        "full product: ETag {absent, strong, weak, strong with comma, strong with obs-text bytes} x mtime {absent, whole second, +500ms} x If-Range {absent, identical, same opaque strong/weak, W/ and w/ variants, different strong/weak, unterminated prefix, suffix, shorter, longer, upper-cased, unquoted, trailing space, two-tag list, *, empty, garbage, non-ASCII, dates -1s/equal/+1s/+1d in three syntaxes} x Range {single, first byte, suffix, multi (multipart-eligible), multi small, unsatisfiable, whole, four forms with tabs / spaces / empty list elements} x companion precondition {none, If-Match: *, If-Match: own tag, If-Match list containing it, non-matching If-None-Match, later If-Unmodified-Since, earlier If-Modified-Since} x GET/HEAD x 2 lengths; every If-Range case again with a second, different If-Range field line before or after it (judged when no line alone would allow the range). Non-trivial = distinct case carrying Range whose status/Content-Range was compared with the If-Range rule".into()
     }
     fn n_blocks(&self, _: &Ctx) -> usize {
         5 * 3
@@ -1478,7 +1490,9 @@ impl Prop for C05 {
         let mtimes = [None, Some((FIXED_SEC, 0)), Some((FIXED_SEC, 500_000_000))];
         let etag = etags[b % 5];
         let mtime = mtimes[b / 5];
-        let ranges: [&[u8]; 7] = [b"bytes=1-3", b"bytes=0-0", b"bytes=-4", b"bytes=0-1, 5-6", b"bytes=0-0,2-2,4-4", b"bytes=5000-", b"bytes=0-"];
+        // the last four: forms a recipient may accept although the grammar has no whitespace there
+        // (an If-Range that does not match must disable them as well)
+        let ranges: [&[u8]; 11] = [b"bytes=1-3", b"bytes=0-0", b"bytes=-4", b"bytes=0-1, 5-6", b"bytes=0-0,2-2,4-4", b"bytes=5000-", b"bytes=0-", b"bytes=\t1-3", b"bytes= \t-5", b"bytes=1-3 ,\t5-6", b"bytes=,, 2-4"];
         let sec = mtime.map(|m| m.0).unwrap_or(FIXED_SEC);
         let mut companions: Vec<Option<(&str, Vec<u8>)>> = vec![
             None,
@@ -2000,9 +2014,14 @@ pub fn c07_cases_for_tuple(t: &[u32], slow: bool) -> Vec<ServeCase> {
                 // 0: plain, 1: Pending polls before the fault, 2: the stream reports an exact size_hint,
                 // 3: every empty chunk stretched into a run of 40 empty chunks (one such run after the
                 // first chunk if the tuple has none)
-                for variant in 0..4 {
+                // 4: the entity itself reports the shorter length from its second len() call on
+                //    (early end only), 5: the request carries an If-Range that matches
+                for variant in 0..6 {
                     let pend = variant == 1;
                     if slow && (variant != 0 || (call > 0 && *at != 1)) {
+                        continue;
+                    }
+                    if variant == 4 && *kind != FaultKind::EarlyEnd {
                         continue;
                     }
                     let mut sizes: Vec<Sz> = t.iter().map(|x| Sz::Abs(*x)).collect();
@@ -2021,12 +2040,22 @@ pub fn c07_cases_for_tuple(t: &[u32], slow: bool) -> Vec<ServeCase> {
                         }
                     }
                     let plan = ChunkPlan { sizes, pend_mask: if pend { 0b0101 } else { 0 }, pend_period: if pend { 4 } else { 0 }, hint_exact: variant == 2 };
-                    let ent = EntSpec { len, etag: None, mtime: None, hdrs: vec![("content-type".into(), b"x/y".to_vec())], plan, fault: Some(Fault { call, at: *at, kind: kind.clone() }), slow_calls: false, content_mode: 0 };
+                    // where the faulty stream's range starts in the entity
+                    let start = match (&range, calls) {
+                        (None, _) => 0,
+                        (Some(_), 1) => 3,
+                        _ => 100 * call as u64 + 5,
+                    };
+                    let shrunk_len = if variant == 4 { Some(start + *at) } else { None };
+                    let ent = EntSpec { len, etag: if variant == 5 { Some(b"\"v1\"".to_vec()) } else { None }, mtime: None, hdrs: vec![("content-type".into(), b"x/y".to_vec())], plan, fault: Some(Fault { call, at: *at, kind: kind.clone(), shrunk_len }), slow_calls: false, content_mode: 0 };
                     let mut c = ServeCase::get(ent);
                     c.extra_polls = 3;
                     c.data_kind = ((*at + call as u64 + variant as u64) % 3 == 0) as u8;
                     if let Some(r) = &range {
                         c.hdrs.push(("range".into(), r.clone().into_bytes()));
+                        if variant == 5 {
+                            c.hdrs.push(("if-range".into(), b"\"v1\"".to_vec()));
+                        }
                     }
                     out.push(c);
                 }
@@ -2051,7 +2080,7 @@ pub fn long_fault_cases(slow: bool) -> Vec<ServeCase> {
                 for (kind, at) in [(FaultKind::Err, rlen - 1), (FaultKind::Err, 66_000.min(rlen - 2)), (FaultKind::Err, 1000), (FaultKind::EarlyEnd, rlen - 1), (FaultKind::EarlyEnd, 65_000), (FaultKind::Overrun, 3), (FaultKind::ExtraByte, rlen), (FaultKind::ExtraChunk, rlen)] {
                     for pend in [false, true] {
                         let plan = ChunkPlan { sizes: sizes.clone(), pend_mask: if pend { 0b1 } else { 0 }, pend_period: if pend { 7 } else { 0 }, hint_exact: false };
-                        let ent = EntSpec { len, etag: None, mtime: None, hdrs: vec![("content-type".into(), b"x/y".to_vec())], plan, fault: Some(Fault { call: 0, at, kind: kind.clone() }), slow_calls: false, content_mode: 0 };
+                        let ent = EntSpec { len, etag: None, mtime: None, hdrs: vec![("content-type".into(), b"x/y".to_vec())], plan, fault: Some(Fault { call: 0, at, kind: kind.clone(), shrunk_len: None }), slow_calls: false, content_mode: 0 };
                         let mut c = ServeCase::get(ent);
                         c.cap = len + 4096;
                         c.extra_polls = 4;
@@ -2075,7 +2104,7 @@ impl Prop for C07 {
         "fault_enumeration"
     }
     fn rule(&self, _: &Ctx) -> String {
-        "exhaustive: every entity stream of 1..4 chunks (1..5 in the thorough tier) with chunk lengths 0..3 x fault {early end, Err, one extra byte inside a chunk, one extra chunk} at every byte offset x response shape {200, single 206, multipart of 2 and 3 parts with the fault in each part} x {plain, Pending polls before the fault, stream with an exact size_hint, runs of 40 empty chunks}; plus the same fault kinds late in bodies of 64 KiB .. 200 KB delivered in chunks of 5 .. 4096 bytes. Non-trivial = distinct case in which the faulty stream was actually requested and the terminal event / delivered byte count was compared with the rule".into()
+        "exhaustive: every entity stream of 1..4 chunks (1..5 in the thorough tier) with chunk lengths 0..3 x fault {early end, Err, one extra byte inside a chunk, one extra chunk} at every byte offset x response shape {200, single 206, multipart of 2 and 3 parts with the fault in each part} x {plain, Pending polls before the fault, stream with an exact size_hint, runs of 40 empty chunks, an entity whose own len() has shrunk to where the stream ends, a matching If-Range on the request}; plus the same fault kinds late in bodies of 64 KiB .. 200 KB delivered in chunks of 5 .. 4096 bytes. Non-trivial = distinct case in which the faulty stream was actually requested and the terminal event / delivered byte count was compared with the rule".into()
     }
     fn n_blocks(&self, ctx: &Ctx) -> usize {
         if ctx.leg.slow() { 40 } else if thorough(ctx) { c07_tuples_upto(5).len() } else { c07_tuples().len() }
@@ -2616,10 +2645,10 @@ impl Prop for C14 {
         "exploration"
     }
     fn rule(&self, _: &Ctx) -> String {
-        "all two-request histories over: ETag {absent, strong, weak} x mtime {absent, epoch, whole second, +1ms, +1ns, +999999999ns, now+1day, now+3s, now+1h, year 10000, year 33658} x entity header sets {none, 1, 3, repeated name} x first request {plain, single range, multi range, unsatisfiable, failing If-Match, matching If-None-Match, multi/single range + If-Range, multi-range answered with the whole entity with/without If-Range, non-matching If-Range, passing preconditions + range}; plus the 250-request shape product (Range kind x If-Range kind x precondition) for every ETag x header set, first response only x all 32 subsets of echoed validators (If-None-Match, If-Modified-Since, If-Match, If-Unmodified-Since, If-Range+Range) x GET/HEAD. Non-trivial = distinct history whose first response headers were checked and (if anything was echoed) whose second status was compared with the round-trip rule".into()
+        "all two-request histories over: ETag {absent, strong, weak} x mtime {absent, epoch, whole second, +1ms, +1ns, +999999999ns, now+1day, now+3s, now+1h, year 10000, year 33658} x entity header sets {none, 1, 3, repeated name} x first request {plain, single range, multi range, unsatisfiable, failing If-Match, matching If-None-Match, multi/single range + If-Range, multi-range answered with the whole entity with/without If-Range, non-matching If-Range, passing preconditions + range}; plus the 250-request shape product (Range kind x If-Range kind x precondition) for every ETag x header set, first response only; and two histories in which the modification time lies 1-2 s ahead of the clock at the first request and has passed at the following ones (same thread) x all 32 subsets of echoed validators (If-None-Match, If-Modified-Since, If-Match, If-Unmodified-Since, If-Range+Range) x GET/HEAD. Non-trivial = distinct history whose first response headers were checked and (if anything was echoed) whose second status was compared with the round-trip rule".into()
     }
     fn n_blocks(&self, ctx: &Ctx) -> usize {
-        3 * 11 * 4 + if ctx.leg.slow() { 0 } else { 10 } + 21
+        3 * 11 * 4 + if ctx.leg.slow() { 0 } else { 10 } + 21 + if ctx.leg.slow() { 0 } else { 2 }
     }
     fn exhaustive(&self, _: &Ctx) -> bool {
         true
@@ -2627,6 +2656,41 @@ impl Prop for C14 {
     fn run_block(&self, b: usize, sink: &mut Sink) {
         let now = std::time::SystemTime::now().duration_since(std::time::UNIX_EPOCH).unwrap().as_secs();
         let n_slow_cb = if sink.ctx.leg.slow() { 0 } else { 10 };
+        if b >= 3 * 11 * 4 + n_slow_cb + 21 {
+            // a modification time that lies in the future at the first request and in the past at
+            // the second one, same thread, same entity: the second response must show the true
+            // (truncated) modification time. Workload shaping by waiting; no time in any verdict.
+            let k = b - (3 * 11 * 4 + n_slow_cb + 21);
+            let now = std::time::SystemTime::now().duration_since(std::time::UNIX_EPOCH).unwrap();
+            let m = (now.as_secs() + 1 + k as u64, [150_000_000u32, 900_000_000][k % 2]);
+            let ent = EntSpec { len: 1000, etag: Some(b"\"v1\"".to_vec()), mtime: Some(m), hdrs: vec![("content-type".into(), b"text/plain".to_vec())], plan: ChunkPlan::default(), fault: None, slow_calls: false, content_mode: 0 };
+            let mut c = ServeCase::get(ent);
+            c.extra_polls = 0;
+            let h = History { first: c.clone(), echo: 0, second_method: "GET".into() };
+            if !sink.admit() {
+                return;
+            }
+            let (v1, _, r1) = c14_run(&h, sink);
+            if !matches!(v1, Verdict::Ok) {
+                sink.record(v1, None, &|| r1.clone());
+                return;
+            }
+            // wait until the modification time has passed
+            for _ in 0..6000 {
+                let t = std::time::SystemTime::now().duration_since(std::time::UNIX_EPOCH).unwrap();
+                if (t.as_secs(), t.subsec_nanos()) > (m.0, m.1 + 50_000_000) {
+                    break;
+                }
+                std::thread::sleep(std::time::Duration::from_millis(5));
+            }
+            for echo in [0u8, 2, 8] {
+                let h2 = History { first: c.clone(), echo, second_method: "GET".into() };
+                let (v, nt, rendered) = c14_run(&h2, sink);
+                sink.count("mtime_passed_between_requests");
+                sink.record(v, nt, &|| rendered.clone());
+            }
+            return;
+        }
         if b >= 3 * 11 * 4 + n_slow_cb {
             // the request-shape product, first response only
             let k = b - (3 * 11 * 4 + n_slow_cb);
@@ -2724,7 +2788,7 @@ impl Prop for C14 {
         sink.record(v, nt, &|| rendered.clone());
     }
     fn floors(&self, _: &Ctx) -> Vec<(&'static str, u64)> {
-        vec![("round_trips_judged", 1000), ("future_mtime_clamped", 10), ("past_mtime_truncated", 100), ("if_range_echo_206", 10), ("multipart_parts_header_checked", 10), ("first_status_304", 1), ("first_status_412", 1), ("first_status_416", 1), ("slow_callback_cases", 10), ("shape_product_requests", 5000)]
+        vec![("round_trips_judged", 1000), ("future_mtime_clamped", 10), ("past_mtime_truncated", 100), ("if_range_echo_206", 10), ("multipart_parts_header_checked", 10), ("first_status_304", 1), ("first_status_412", 1), ("first_status_416", 1), ("slow_callback_cases", 10), ("shape_product_requests", 5000), ("mtime_passed_between_requests", 3)]
     }
     fn assumptions(&self) -> Vec<String> {
         vec!["Last-Modified is judged against the response's own Date (no clock read by the oracle); date echoes of a future-dated entity are not judged (their right answer depends on the clock of the second request); presence of Date without an mtime and headers of 400/405/413 are not judged".into()]
@@ -2866,7 +2930,7 @@ impl Prop for C15 {
                             if !sink.admit() {
                                 continue;
                             }
-                            let mk = |method: &str| crate::e2::StreamCase { method: method.into(), accept_encoding: ae.map(|v| v.to_vec()), chunk, gzip_level: level, via_parts, payload: crate::e2::Payload::Text, ops: vec![crate::e2::Op::WriteAll(100)], extra_polls: 1, fresh_wakers: false, prelude: 0, builder_detour: 0, noise: 0 };
+                            let mk = |method: &str| crate::e2::StreamCase { method: method.into(), accept_encoding: ae.map(|v| v.to_vec()), chunk, gzip_level: level, via_parts, payload: crate::e2::Payload::Text, ops: vec![crate::e2::Op::WriteAll(100)], extra_polls: 1, fresh_wakers: false, prelude: 0, builder_detour: 0, noise: 0, version: 0 };
                             let (g, h) = match (crate::e2::run_stream(&mk("GET")), crate::e2::run_stream(&mk("HEAD"))) {
                                 (Some(g), Some(h)) => (g, h),
                                 _ => continue,
